@@ -57,26 +57,34 @@ def check_universe_file():
         raise MachineryError("spec/routingx/MCRoutingXU.tla is not the universe of harness/routingx.py (regenerate it)")
 
 
-# ---------------------------------------------------------------------------- 1. model checking
-def model_checking(ctx: Ctx):
+# ---------------------------------------------------------------------------- 1. model checking  2. spec -> code
+def start_tlc(ctx: Ctx, ex):
+    """submit the model checks, the broken variants and the exports to the thread pool `ex`"""
     from .. import tlc
 
     cfgs = QUICK_MC if ctx.quick else QUICK_MC + THOROUGH_MC
-    per = max(2, ctx.workers // (3 if ctx.quick else 2))
+    per = ctx.workers if ctx.quick else max(2, ctx.workers // 2)
 
     def mc(cfg):
-        return ctx.model_check(AREA, "MCRoutingX", cfg, workers=per, timeout=900 if ctx.quick else 7200)
+        return ctx.model_check(AREA, "MCRoutingX", cfg, workers=per, timeout=900 if ctx.quick else 10800)
 
     def broken(v):
         r = tlc.run_tlc(AREA, "MCRoutingX", "MCXV_" + v, workers=2, tmp=ctx.tmp, allow_violation=True, timeout=600)
         return v, r.invariant_violated
 
-    with cf.ThreadPoolExecutor(max_workers=3 if ctx.quick else 2) as ex:
-        futs = [ex.submit(mc, c) for c in cfgs]
-        vf = [ex.submit(broken, v) for v in VARIANTS]
-        for f in futs:
-            f.result()
-        res = dict(f.result() for f in vf)
+    def export(cfg):
+        return [v for v in ctx.export(AREA, "MCRoutingX", cfg, count_states=False) if isinstance(v, dict) and "idx" in v]
+
+    xs = ("MCXX_cases", "MCXX_host") if ctx.quick else ("MCXX_cases", "MCXX_host", "MCXX_all")
+    return ([ex.submit(export, c) for c in xs], [ex.submit(broken, v) for v in VARIANTS], [ex.submit(mc, c) for c in cfgs])
+
+
+def finish_model_checking(ctx: Ctx, var_f, mc_f):
+    from .. import tlc
+
+    for f in mc_f:
+        f.result()
+    res = dict(f.result() for f in var_f)
     ctx.notes["broken_model_variants_violate"] = res
     bad = [v for v, inv in res.items() if not inv]
     if bad:
@@ -84,12 +92,8 @@ def model_checking(ctx: Ctx):
     ctx.exhaustive = True
 
 
-# ---------------------------------------------------------------------------- 2. spec -> code
-def model_groups(ctx: Ctx):
+def model_groups(ctx: Ctx, cases):
     U = rx.universe()
-    cases = []
-    for cfg in (("MCXX_cases", "MCXX_host") if ctx.quick else ("MCXX_cases", "MCXX_host", "MCXX_all")):
-        cases += [v for v in ctx.export(AREA, "MCRoutingX", cfg, count_states=False) if isinstance(v, dict) and "idx" in v]
     by = {}
     for v in cases:
         by.setdefault((tuple(v["idx"]), v["strict"], v["merge"], v["bind"]), []).append(
@@ -115,7 +119,7 @@ def universe_groups(ctx: Ctx, rng):
     sets = [(i,) for i in range(len(U))]
     sets += list(itertools.permutations(plain, 2)) + list(itertools.permutations(hosted, 2))
     if ctx.quick:
-        keep = set(rng.sample(range(len(sets)), 110))
+        keep = set(rng.sample(range(len(sets)), 60))
         sets = [p for i, p in enumerate(sets) if i in keep or len(p) == 1]
     groups = []
     toks = ["a", "b", "12", "007", "x y"]
@@ -170,7 +174,7 @@ def converter_groups(ctx: Ctx, rng):
             cfg = rx.make_cfg(rules, rng.random() < 0.7, True, False, dict(rt.DEFAULT_BIND))
             if c.get("cust") == "dflt":
                 cfg["map"]["dflt"] = "int"
-            ts = texts if not ctx.quick else rng.sample(texts, 16) + rx.extra_tokens(rules)
+            ts = texts if not ctx.quick else rng.sample(texts, 12) + rx.extra_tokens(rules)
             paths = []
             for t in ts:
                 mid = (seg["pre"] + t + seg["post"])
@@ -182,7 +186,7 @@ def converter_groups(ctx: Ctx, rng):
 
 
 def random_groups(ctx: Ctx, rng):
-    return [rx.random_xmap(rng, ctx.quick) for _ in range(150 if ctx.quick else 3000)]
+    return [rx.random_xmap(rng, ctx.quick) for _ in range(90 if ctx.quick else 3000)]
 
 
 # ---------------------------------------------------------------------------- judging
@@ -195,8 +199,9 @@ def detail_of(ln):
     return k
 
 
-def judge_lines(ctx: Ctx, groups, factories=(), tag=""):
-    results = pmap(rx.run_ops, groups, workers=ctx.workers, chunksize=4)
+def record(ctx: Ctx, groups, factories=(), tag="", fork=True):
+    """run the operations on real maps -> (lines, meta)"""
+    results = pmap(rx.run_ops, groups, workers=ctx.workers, chunksize=4) if fork else [rx.run_ops(g) for g in groups]
     lines, meta = [], {}
     for t, (g, res) in enumerate(zip(groups, results)):
         tid = f"{tag}{t}"
@@ -214,14 +219,18 @@ def judge_lines(ctx: Ctx, groups, factories=(), tag=""):
             ln = res[1]
             ctx.sample({"rules": [rx.describe(r) for r in g[0]["rules"]], "map": g[0]["map"], "bind": g[0]["bind"],
                         "path": "".join(map(chr, ln["path"])), "method": ln["method"], "wsarg": ln["wsarg"], "outcome": ln["r"]["kind"]})
-    flines = pmap(rx.run_factory, list(factories), workers=1)
+    flines = [rx.run_factory(c) for c in factories]
     for j, (c, ln) in enumerate(zip(factories, flines)):
         ln.update(t=f"{tag}fac", i=j)
         meta[(ln["t"], j)] = (c, ln)
         ctx.count(1)
-        ctx.nontrivial.add(("factory", j))
+        ctx.nontrivial.add(("factory", tag, j))
     lines.extend(flines)
-    for r in ctx.judge(AREA, "RoutingXTrace", lines, batch=1200):
+    return lines, meta
+
+
+def judge_recorded(ctx: Ctx, lines, meta):
+    for r in ctx.judge(AREA, "RoutingXTrace", lines, batch=1000 if ctx.quick else 2500):
         g, ln = meta[(r["t"], r["i"])]
         if ln["op"] == "factory":
             case = {"factory": list(g)}
@@ -316,20 +325,40 @@ def run(ctx: Ctx):
                 "model's exported cases, singles / ordered pairs of the 36-rule universe, converter sweeps, seeded random maps of "
                 "1..7 rules with twins of the other kind; non-trivial = distinct match / dispatch calls whose answer is not "
                 "NotFound, builds and factory expansions")
-    model_checking(ctx)
-    rng = random.Random(ctx.seed + 7)
-    groups = model_groups(ctx)
-    ctx.notes["model_maps"] = len(groups)
-    groups += universe_groups(ctx, rng)
-    groups += converter_groups(ctx, rng)
-    groups += random_groups(ctx, rng)
-    ctx.notes["maps"] = len(groups)
-    lines = judge_lines(ctx, groups, rx.factory_cases(rng, ctx.quick))
     import collections
 
+    rng = random.Random(ctx.seed + 7)
+    # code -> spec recording first (fork pool), then every TLC run concurrently: model checks, broken variants, exports
+    # and the judge batches of the recorded lines; the exported model cases are replayed in-process and judged last
+    groups = universe_groups(ctx, rng) + converter_groups(ctx, rng) + random_groups(ctx, rng)
+    lines, meta = record(ctx, groups, rx.factory_cases(rng, ctx.quick))
+    with cf.ThreadPoolExecutor(max_workers=4 if ctx.quick else 3) as ex:
+        exp_f, var_f, mc_f = start_tlc(ctx, ex)
+        jf = ex.submit(judge_recorded, ctx, lines, meta)
+        cases = [v for f in exp_f for v in f.result()]
+        mgroups = model_groups(ctx, cases)
+        mlines, mmeta = record(ctx, mgroups, tag="model", fork=False)
+        judge_recorded(ctx, mlines, mmeta)
+        jf.result()
+        finish_model_checking(ctx, var_f, mc_f)
+    lines += mlines
+    ctx.notes["maps"] = len(groups) + len(mgroups)
+    ctx.notes["model_maps"] = len(mgroups)
     ctx.notes["lines_by_op"] = dict(collections.Counter(l["op"] for l in lines))
     ctx.notes["match_outcomes"] = dict(collections.Counter(l["r"]["kind"] for l in lines if l["op"] == "match"))
     ctx.notes["drift_kinds"] = dict(collections.Counter(d.get("what") for d in ctx.model_drift))
+    cfgs = [l for l in lines if l["op"] == "cfg"]
+    ctx.notes["exercised"] = {
+        "host_matching_maps": sum(1 for c in cfgs if c["map"]["hm"]),
+        "maps_with_websocket_rules": sum(1 for c in cfgs if any(r["ws"] for r in c["rules"])),
+        "maps_built_through_factories": sum(1 for g in groups if g[0].get("via")),
+        "redirects_from_redirect_to_string": sum(1 for l in lines if l["op"] == "match" and l["r"]["kind"] == "redirect" and l["r"]["fnrule"] == 0
+                                                 and not l["r"]["url"][-1:] == [47]),
+        "redirects_from_redirect_to_callable": sum(1 for l in lines if l["op"] == "match" and l["r"]["fnrule"] > 0),
+        "matches_with_websocket_override": sum(1 for l in lines if l["op"] == "match" and l["wsarg"] != "none" and l["r"]["kind"] == "match"),
+        "websocket_urls_built": sum(1 for l in lines if l["op"] == "build" and l["x"]["url"][:2] == [119, 115]),
+        "dispatch_view_calls": sum(1 for l in lines if l["op"] == "dispatch" and l["d"]["called"]),
+    }
     self_test(ctx, lines)
 
 
@@ -340,7 +369,7 @@ def replay(ctx: Ctx, data):
     if "factory" in case:
         f = case["factory"]
         ctx.sample({"factory": f[0], "ctx": f[1], "options": f[2]})
-        judge_lines(ctx, [], [tuple(f)])
+        judge_recorded(ctx, *record(ctx, [], [tuple(f)], fork=False))
         return
     ctx.sample({"rules": case["rules_text"], "op": case["op"]})
-    judge_lines(ctx, [(case["cfg"], [case["op"]])])
+    judge_recorded(ctx, *record(ctx, [(case["cfg"], [case["op"]])], fork=False))
